@@ -34,6 +34,7 @@ import (
 	"google.golang.org/grpc"
 	"google.golang.org/grpc/test/bufconn"
 
+	"verifharness/internal/dstate"
 	"verifharness/internal/mq"
 	"verifharness/internal/rec"
 	"verifharness/internal/vpipe"
@@ -46,14 +47,15 @@ type World struct {
 	Clock *vpipe.Clock
 	Epoch time.Time
 
-	mu      sync.Mutex
-	Nodes   map[int]*Node
-	Conns   map[int]*Client
-	Topics  map[string][]string // client-facing topic string -> level sequence (ground truth)
-	Auth    wasp.AuthenticationHandler
-	Reverse bool // the gossip network delivers pending broadcasts newest first
-	MemLog  bool // nodes use an in-memory message log (race-detector runs)
-	Quiet   bool // seams do not record (stress runs): only what the driver emits itself
+	mu        sync.Mutex
+	Nodes     map[int]*Node
+	Conns     map[int]*Client
+	Topics    map[string][]string // client-facing topic string -> level sequence (ground truth)
+	Auth      wasp.AuthenticationHandler
+	Reverse   bool // the gossip network delivers pending broadcasts newest first
+	MemLog    bool // nodes use an in-memory message log (race-detector runs)
+	Quiet     bool // seams do not record (stress runs): only what the driver emits itself
+	AuditDown bool // the nodes' audit sink is unreachable: every RecordEvent fails (it is a side channel and must not matter)
 
 	cnt    map[string]int // hook counters
 	cntCh  chan struct{}
@@ -281,7 +283,11 @@ func (w *World) AddNodePrefilled(id int, pre *Prefill) (*Node, error) {
 	}
 	n.Bcast = &memberlist.TransmitLimitedQueue{RetransmitMult: 1, NumNodes: func() int { return 1 }}
 	n.Local = &localState{n: n, real: wasp.NewState(uint64(id))}
-	n.State = distributed.NewState(uint64(id), n.Bcast, audit.NoneRecorder())
+	if w.AuditDown {
+		n.State = distributed.NewState(uint64(id), n.Bcast, dstate.DownAudit())
+	} else {
+		n.State = distributed.NewState(uint64(id), n.Bcast, audit.NoneRecorder())
+	}
 	n.Dist = &wasp.PublishDistributor{ID: uint64(id), State: n.State.Subscriptions(), Storage: n.Log, Logger: zap.NewNop(), Transport: netTransport{n}}
 	n.Queue = &queueWrap{n: n, real: ack.NewQueue()}
 	n.Writer = wasp.NewWriter(uint64(id), n.State.Subscriptions(), n.Local, n.Queue)
